@@ -545,7 +545,10 @@ Inductive op :=
 | OReplace (f : nat) (a : colarg)
 | OAdd (name : list Z) (k : kind) (l : list mb)
 | ORows | ODict | OPandas
-| OIndex (i : Z) | OIter.
+| OIndex (i : Z) | OIter
+(* add_fields on the OTHER operand (whose schema sch1 the operation carries): the current table becomes t1 + field.
+   Lets a program add a same-named field of another type to a second table of the same class. *)
+| OAddT1 (sch1 : schema) (name : list Z) (k : kind) (l : list mb).
 
 (* result of one step: a new current table, or a list of rows that was only looked at, or an exception *)
 Inductive mres := MTab (sch : schema) (t : ctable) | MRows (rs : list (list mcell)) | MErr.
@@ -568,6 +571,7 @@ Definition m_step (sch : schema) (cur t1 : ctable) (o : op) : mres :=
   | ODict | OPandas => of_opt sch (m_from_dict sch (m_todict sch cur))
   | OIndex i => match s_index (m_to_rows cur) i with Some r => MRows [r] | None => MErr end
   | OIter => MRows (m_to_rows cur)
+  | OAddT1 sch1 name k l => of_opt (sch1 ++ [(name, FB k)]) (m_add k l t1)
   end.
 Fixpoint m_run (sch : schema) (cur t1 : ctable) (p : list op) : list mres :=
   match p with
@@ -638,6 +642,7 @@ Definition s_step (sch : schema) (cur t1 : table) (o : op) : sres :=
   | ORows | ODict | OPandas => STab cur
   | OIndex i => match s_index cur i with Some r => SRows [r] | None => SErr end
   | OIter => SRows cur
+  | OAddT1 _ _ k l => if forallb (mb_ok k) l then s_opt (s_add (map (fun b => CB (erase_b b)) l) t1) else SErr
   end.
 
 (* ====================================================================== rules named for the translator bridge
